@@ -404,7 +404,8 @@ def _run_check(ctx: Ctx, check: PropertyCheck, replay: str | None) -> int:
         "violations": len(reported),
     }
     # self-test runs against a scratch copy (VERIF_REPO) must not overwrite the evidence of the real tree
-    evdir = (OUT / "selftest_evidence") if os.environ.get("VERIF_REPO") else EVID
+    # coverage extensions (ids X..: specs of behaviour outside the 54 given properties) keep their evidence apart
+    evdir = (OUT / "selftest_evidence") if os.environ.get("VERIF_REPO") else (EVID if check.ID.startswith("C") else VERIF / "evidence_extra")
     evdir.mkdir(parents=True, exist_ok=True)
     (evdir / f"{check.ID}.json").write_text(json.dumps(ev, indent=1))
     print(f"{check.ID} {ctx.tier}: model states={ev['coverage']['states']} transitions={ev['coverage']['transitions']} "
